@@ -305,11 +305,14 @@ theorem pf_arbitrary_eq_trapezoidal_rule (Φ pdf : ℝ → ℝ) (sm ss a b : ℝ
       = trapezoidal_integral (fun x => pdf x * normCdf Φ x (Transc.log10 sm) ss) N a b :=
   pfArbitraryLoad_uniform Φ pdf sm ss a b hN
 
-/- FULL STATEMENT (not proved): for the sampled normal density `pdf = normPdf`-shifted and `Φ = stdNormalCdf`, on any
+/- FULL STATEMENT: for the sampled normal density `pdf = normPdf`-shifted and `Φ = stdNormalCdf`, on any
 refinement sequence of sample points covering the load distribution, `pf_arbitrary_load → pfNormLoad`.
-PROVED below: second-order error bound and convergence to `∫ₐᵇ pdf · cdf_S` on uniform grids for every integrand
-that is C² on `[a, b]` with `|f''| ≤ ζ`.  MISSING: C² + explicit ζ for the Gaussian integrand (needs `Φ' = φ`, not
-derived here from the measure-theoretic definition), the tails outside `[a, b]`, non-uniform points. -/
+PROVED in this theorem: second-order error bound and convergence to `∫ₐᵇ pdf · cdf_S` on uniform grids for every
+integrand that is C² on `[a, b]` with `|f''| ≤ ζ`.  PROVED by the companions below: non-uniform increasing sample
+points (`pf_arbitrary_nonuniform_error_le`); the Gaussian integrand is C² with a bounded second derivative, hence
+convergence on every refinement sequence, and the tails outside `[a, b]` cost at most the load's probability mass
+there (`pf_arbitrary_gaussian_converges`).  REMAINING: an explicit value of ζ for the Gaussian integrand (i.e. a
+rate instead of mere convergence) and floating-point rounding. -/
 theorem pf_arbitrary_converges_partial (Φ pdf : ℝ → ℝ) (sm ss a b : ℝ)
     (hc2 : ContDiffOn ℝ 2 (fun x => pdf x * normCdf Φ x (Transc.log10 sm) ss) (Set.uIcc a b)) {ζ : ℝ}
     (hζ : ∀ x, |iteratedDerivWithin 2 (fun x => pdf x * normCdf Φ x (Transc.log10 sm) ss) (Set.uIcc a b) x| ≤ ζ) :
